@@ -64,6 +64,13 @@ pub struct XferCfg {
     pub think_ns: Ns,
     /// a finished client closes its socket at once (what real clients do): later datagrams bounce
     pub close_when_done: bool,
+    /// the transfer mode string of the request (the server transfers octets whatever it says)
+    pub mode: String,
+    /// reader/writer: repeat an adversarial duplicate ACK this many times in a row
+    pub dup_ack_burst: u32,
+    /// writer: once the final ACK is in, send an ERROR with this code to the transfer endpoint (a client
+    /// that tears down noisily, or answers a surplus copy of the final ACK): the upload is complete all the same
+    pub late_error: Option<u16>,
 }
 
 impl XferCfg {
@@ -80,6 +87,9 @@ impl XferCfg {
             eager_reack: false,
             script: vec![],
             resend_request: true,
+            mode: "octet".into(),
+            dup_ack_burst: 1,
+            late_error: None,
             die_after_blocks: None,
             stray_after_block: None,
             bad_oack_ack: None,
@@ -213,7 +223,7 @@ impl Reader {
     }
 
     fn send_request(&mut self, cx: &mut Cx) {
-        let p = Pkt::Rrq { file: self.cfg.file.clone(), mode: "octet".into(), opts: self.cfg.opts.clone() };
+        let p = Pkt::Rrq { file: self.cfg.file.clone(), mode: self.cfg.mode.clone(), opts: self.cfg.opts.clone() };
         self.requests_sent += 1;
         cx.send(self.cfg.server, &rfc::encode(&p));
     }
@@ -270,9 +280,11 @@ impl Reader {
                     return true;
                 }
                 Adv::AckDup => {
-                    cx.adversarial("dup-ack");
                     let n = self.last_ack_sent.unwrap_or(0);
-                    cx.send(to, &rfc::encode(&Pkt::Ack(n as u16)));
+                    for _ in 0..self.cfg.dup_ack_burst.max(1) {
+                        cx.adversarial("dup-ack");
+                        cx.send(to, &rfc::encode(&Pkt::Ack(n as u16)));
+                    }
                 }
                 Adv::AckStale(back) => {
                     cx.adversarial("stale-ack");
@@ -557,7 +569,7 @@ impl Writer {
     }
 
     fn send_request(&mut self, cx: &mut Cx) {
-        let p = Pkt::Wrq { file: self.cfg.file.clone(), mode: "octet".into(), opts: self.cfg.opts.clone() };
+        let p = Pkt::Wrq { file: self.cfg.file.clone(), mode: self.cfg.mode.clone(), opts: self.cfg.opts.clone() };
         self.requests_sent += 1;
         cx.send(self.cfg.server, &rfc::encode(&p));
     }
@@ -738,6 +750,10 @@ impl Peer for Writer {
                         self.status = Status::Done;
                         self.done_at = Some(cx.now());
                         self.gen += 1;
+                        if let (Some(code), Some(t)) = (self.cfg.late_error, self.tid) {
+                            cx.adversarial("late-error");
+                            cx.send(t, &rfc::encode(&Pkt::Error { code, msg: "done".into() }));
+                        }
                         if self.cfg.close_when_done {
                             cx.note("writer is done and closes its socket".to_string());
                             cx.close_endpoint();
